@@ -472,7 +472,7 @@ class Body:
                     self._origins_place(p2, proj[1:], res, seen, through_calls, depth + 1)
                 else:
                     self._origins_place(p2, ("&",) + proj, res, seen, through_calls, depth + 1)
-            elif k == "cast":
+            elif k == "cast" or (k == "un" and rv[1] == "Not"):
                 o = rv[2]
                 if o[0] == "k":
                     res.add(("const", _freeze(o[2])))
